@@ -87,26 +87,72 @@ val_h!(c11_validate_p3_c3, 3, 3);
 fn c07_is_ended_by_table() {
     let m: u64 = kani::any();
     let e: u64 = kani::any();
-    kani::assume(m == tree::ROOT || m == tree::A || m == tree::B || m == tree::A2 || m == tree::ROOT2);
+    kani::assume(m == tree::ROOT || m == tree::A || m == tree::B || m == tree::A2 || m == tree::ROOT2 || m == tree::C);
     let got = is_ended_by::<TreeTag>(m, e);
-    // reference, straight from Tree's declaration
-    let parent_of = |x: u64| -> Option<u64> {
-        match x {
-            tree::A | tree::A2 | tree::L1 => Some(tree::ROOT),
-            tree::B | tree::L2 => Some(tree::A),
-            tree::L3 => Some(tree::B),
-            _ => None,
-        }
-    };
-    let declared = Tree::ty(e).is_some();
-    let global = e == tree::VOID || e == tree::CRC;
-    let root = declared && !global && parent_of(e).is_none();
-    let sibling = declared && !global && parent_of(e) == parent_of(m);
-    let ancestor = (parent_of(m) == Some(e)) || (parent_of(m).and_then(parent_of) == Some(e));
-    let want = declared && !global && (root || sibling || ancestor);
+    // reference, straight from Tree's declaration (oracle::tree_direct_close)
+    let declared = tree_declared(e);
+    let global = tree_global(e);
+    let want = tree_direct_close(m, e);
+    kani::cover!(want && m == tree::C && e == tree::A, "instance of a non-direct, non-root ancestor ends C reached");
     kani::cover!(want && m == tree::B && e == tree::ROOT, "grand-parent instance ends B reached");
     kani::cover!(!want && global, "global element reached");
     kani::cover!(!want && !declared, "undeclared id reached");
     kani::cover!(want && m == tree::A && e == tree::A2, "sibling master reached");
     assert!(got == want, "C07/C06/C11a: an unknown-size master is ended exactly by a sibling, an instance of one of its ancestors, or a root element - never by a global or unknown element");
 }
+
+/// C11b/C06 (validator with unknown-size masters): `validate_tag_path` over spec `Tree`
+/// for a concrete chain of open masters with a concrete known/unknown pattern (both
+/// enumerated by the harness list) and EVERY element id: accepted iff the declared path
+/// matches the chain that remains after the element closed the trailing run of
+/// unknown-size masters it ends (C07's recursive rule) — in particular an unknown-size
+/// master is NOT treated as closed while a known-size master is still open inside it.
+fn validate_tree<const SEL: u8, const UNKNOWN_MASK: u8>() {
+    let (ids, n): ([u64; 3], usize) = match SEL {
+        1 => ([tree::ROOT, 0, 0], 1),
+        2 => ([tree::ROOT, tree::A, 0], 2),
+        3 => ([tree::ROOT, tree::A, tree::B], 3),
+        4 => ([tree::ROOT, tree::A2, 0], 2),
+        _ => ([tree::ROOT2, 0, 0], 1),
+    };
+    let unknown = [UNKNOWN_MASK & 1 != 0, UNKNOWN_MASK & 2 != 0, UNKNOWN_MASK & 4 != 0];
+    // the element ranges over the finite set of declared ids; each is tried as a CONSTANT (a symbolic id makes the
+    // validator's work vectors symbolic-length, which CBMC cannot digest once masters are closed)
+    let size = |i: usize| if unknown[i] { EBMLSize::Unknown } else { EBMLSize::Known(0) };
+    let mut k = 0;
+    while k < tree::ALL.len() {
+        let e = tree::ALL[k];
+        let doc = [(ids[0], size(0), 0usize), (ids[1], size(1), 0), (ids[2], size(2), 0)];
+        let keep = tree_chain_after_closing(&ids, &unknown, n, e);
+        let want = ref_match(&ids[..keep], Tree::path(e));
+        let got = validate_tag_path::<TreeTag>(e, doc.into_iter().take(n));
+        assert!(got == want, "C11/C06/C07/C02b: hierarchy validation judges the element against the chain that remains after closing the unknown-size masters it ends");
+        k += 1;
+    }
+    kani::cover!(true, "all declared ids tried");
+}
+
+macro_rules! vt_h {
+    ($name:ident, $sel:literal, $mask:literal) => {
+        #[kani::proof]
+        #[kani::unwind(13)]
+        fn $name() {
+            validate_tree::<$sel, $mask>()
+        }
+    };
+}
+// chain [Root]: U ; [Root, A]: KU, UK, UU ; [Root, A, B]: all patterns with at least one unknown ; [Root, A2]: UK, UU ; [Root2]: U
+vt_h!(c11_vtree_root_u, 1, 1);
+vt_h!(c11_vtree_root_a_ku, 2, 2);
+vt_h!(c11_vtree_root_a_uk, 2, 1);
+vt_h!(c11_vtree_root_a_uu, 2, 3);
+vt_h!(c11_vtree_root_a_b_kku, 3, 4);
+vt_h!(c11_vtree_root_a_b_kuk, 3, 2);
+vt_h!(c11_vtree_root_a_b_kuu, 3, 6);
+vt_h!(c11_vtree_root_a_b_ukk, 3, 1);
+vt_h!(c11_vtree_root_a_b_uku, 3, 5);
+vt_h!(c11_vtree_root_a_b_uuk, 3, 3);
+vt_h!(c11_vtree_root_a_b_uuu, 3, 7);
+vt_h!(c11_vtree_root_a2_uk, 4, 1);
+vt_h!(c11_vtree_root_a2_uu, 4, 3);
+vt_h!(c11_vtree_root2_u, 5, 1);
